@@ -15,6 +15,15 @@ CHECKS = {
  'C03': ('E1 state-graph', 'explicit-state exploration of every (configuration, installation time, stop point) history on real solvers with instrumented pure/in-place constraints: every recorded cost call after installation judged against a harness-owned copy of the constraint, every stop judged for c(best)==best and the recomputed energy, pure and in-place variants compared bit for bit',
          'For each solver x constraint kind (pin, clamp, round, tie, symbolic; pure and in-place) x box/mode (all but clip=False) x cost x start, every schedule of the alphabet is executed: configured before the first Step, installed by SetConstraints after k in {0,1,2,3} Steps, installed on a run stopped by a limit and continued, replacing another live constraint; stops at every Step boundary of an 8 (12) step run and by maxiter/maxfun in {1,2,3,5}.',
          'constraints restricted to deterministic idempotent ones that map the box into itself (mechanically pre-checked); best after a mid-run installation and populations are evidence only; a Nelder-Mead pure/in-place divergence explained by the documented aliasing rule is counted, anything else raised', '3/C03'),
+ 'C06': ('E1 state-graph with crash-point enumeration', 'crash-point enumeration: every generation boundary of a recorded run x every save path (SaveSolver, periodic SetSaveFrequency file, dill) x every restore path (LoadSolver, dill.load, dill.copy, deepcopy), restore of a restore over all pairs of crash points; confluence oracle on a canonical form of the whole solver object (closure cells, sharing structure, float.hex)',
+         'For each base solver x configuration (plain, box+constraint+penalty, tight, clip, clip=False, monitors incl. LoggingMonitor, limits+termination, two mid-run reconfigurations) the uninterrupted run of n Steps is recorded; at every boundary k the solver is transferred by each path, must be canonically equal to the original at k, bit-identical after each remaining Step with the random state reinstated, count exactly its own cost calls, and neither copy nor original may change the other; periodic dumps as they exist after every step, Solve continuation and log files are compared too.',
+         'restart files are written to a per-shard temporary directory and never torn; masked by construction: _state, the DUMPED()/LOADED() info lines, a LoggingMonitor file handle; ensembles and non-default maps out of scope', '3/C06'),
+ 'C09': ('E1 state-graph + E2 choice-tree', 'exhaustive enumeration of ensemble configurations (bin layouts / point counts x nested solver x box x constraint/penalty/limits/termination x map order and copying x Solve/step/Step-loop modes) with per-member instrumentation, every member evaluation order for small ensembles, every answer of the rand draws behind Buckshot starts and the point generators',
+         'Every Lattice layout in {1,2,3}^dim (dim<=2), Buckshot/Sparsity point counts, nested NM/Powell (DE thorough), three boxes, features on/off, serial/reversed/permuted/dill-copying maps, three drive modes and the lattice/buckshot/sparsity wrappers: best energy = min over members and is that member\'s solution, total evaluations = sum over members = real cost calls, member count, first call of each member inside the box (lattice: cell centre), members carry and obey box, constraints, penalty, limits and termination; gridpts/samplepts/random_samples/fillpts/randomly_bin against their definitions under every scripted draw.',
+         'MixedSolver, Collapse on ensembles, tight/clip range modes and SetNestedSolver with a configured instance are out of scope; scripted rand limited to dim x npts <= 4 (6 thorough)', '3/C09'),
+ 'C11': ('E3 + E1 state-graph', 'complete enumeration of monitor histories x tolerance x window x target x mask (every subset, every accepted format) for the five collapse detectors against an independent plain-Python definition, plus explicit-state exploration of op sequences {Step, StepTo(stop), Collapse, Solve} on real solvers with collapse terminations, judging every later cost call',
+         'Detectors: every history of length 1-4 over {0,1e-5,1}^dim (dim<=3), product-measure monitors with npts (2,),(2,2),(3,2), masks in dict/set/where formats; result = definition minus mask, in the format of the mask, and feeding the result back as mask yields nothing. Solvers: NM, Powell, DE, DE2 on flat / tied costs with Or/And/When trees of ChangeOverGeneration, CollapseAt, CollapseAs, CollapseWeight, CollapsePosition; after a collapse every logged call and the final solution satisfy the relation exactly, termination masks grow by exactly what was applied, nothing is reported twice, Solve returns within the horizon under every generation limit 2..23.',
+         'ensemble Collapse (documented as not implemented), CollapseCost at solver level and the offset=True relation are not judged; three known findings (F38-F40) are matched by signature', '3/C11'),
  'C08': ('E3 + E2 choice-tree', 'lock-step comparison with reference models over a complete grid (NM/Powell) and exhaustive enumeration of every answer of sample/randrange/random() for every DE strategy call (complete tree) and whole generations (deviation bound 2)',
          'Nelder-Mead and Powell solvers are stepped iteration by iteration against independent reference implementations (textbook NM; direction-set loop around the same Brent search) over a cost x start x tolerance x maxiter grid with all NM branches and exact ties exercised, fmin/fmin_powell against scipy.optimize.fmin and the vendored scipy-0.6 routines; every DE trial is decoded from an encoded population under every scripted random answer and judged by the strategy definition; selection judged strictly.',
          'random() answers from {0, CR, 0.999}; four *Bin strategies judged under either crossover rule (DESIGN section 5); Powell stop rule (gtol=2) differences recorded, not judged', '3/C08'),
